@@ -101,7 +101,7 @@ fn gen_clifford_ops(nb: usize, depth: usize, rng: &mut SplitMix64) -> String
 /// Clifford sub-gates on every operand order, so that the stabilizer backend conjugates through the combinators.
 pub fn gen_clifford_term(k: usize, depth: usize, rng: &mut SplitMix64) -> String
 {
-    if depth == 0 || (k <= 2 && rng.below(3) == 0)
+    if depth == 0 || (k == 1 && rng.below(4) != 0) || (k == 2 && rng.below(3) == 0)
     {
         match k
         {
@@ -113,8 +113,8 @@ pub fn gen_clifford_term(k: usize, depth: usize, rng: &mut SplitMix64) -> String
     let d = depth.saturating_sub(1);
     match rng.below(4)
     {
-        0 if k >= 2 => { let k0 = 1 + rng.below(k as u64 - 1) as usize; format!("Kron {} {}", gen_clifford_term(k0, d, rng), gen_clifford_term(k - k0, d, rng)) },
-        1 => format!("Loop l{} {} b{} {} {}", rng.below(100), rng.below(4), rng.below(100), k, gen_clifford_ops(k, d, rng)),
+        0 | 1 if k >= 2 => { let k0 = 1 + rng.below(k as u64 - 1) as usize; format!("Kron {} {}", gen_clifford_term(k0, d, rng), gen_clifford_term(k - k0, d, rng)) },
+        2 => format!("Loop l{} {} b{} {} {}", rng.below(100), rng.below(4), rng.below(100), k, gen_clifford_ops(k, d, rng)),
         _ => format!("Comp g{} {} {}", rng.below(100), k, gen_clifford_ops(k, d, rng)),
     }
 }
